@@ -226,7 +226,7 @@ def plan(run):
     quick = run.tier == "quick"
     run.rule = ("all key sequences over {a,b,null}^levels: 1 level length<=7 (thorough 8), 2 levels length<=4 (5), 3 levels length<=3 over {a,null} (quick) / "
                 "{a,b,null} (thorough); each with nrow = 1..n+1 (1 level) or a subset placing breaks at several positions; plus combinations with page_by / "
-                "subline_by on another column. states = documents executed (sequence x nrow); non-trivial = distinct (sequence, nrow) rendered on >= 2 pages, or rejected as non-contiguous")
+                "subline_by on another column; plus integer / float / boolean key columns over {0, 1, null} (1 level length<=5 (7), 2 levels length<=3 (4)). states = documents executed (sequence x nrow); non-trivial = distinct (sequence, nrow) rendered on >= 2 pages, or rejected as non-contiguous")
     run.assumptions = ["no header/footnote rows are configured, so nrow alone controls where pages start",
                        "null display text is the empty string, so only non-null cells can distinguish blank from shown"]
     cases = []
@@ -254,6 +254,13 @@ def plan(run):
                 for a in SYMS:
                     cases.append({"levels": 1, "prefix": [[a]], "depth": n - 1, "nrows": [2, 3], "only_len": n,
                                   "extra": {which: [grp], "colorder": None}})
+    # numeric / boolean key columns: 0, 0.0 and False are legitimate key values (and falsy ones)
+    for kt in ("int", "float", "bool"):
+        for a, b in itertools.product(SYMS, repeat=2):
+            cases.append({"levels": 1, "prefix": [[a], [b]], "depth": 3 if quick else 5, "nrows": [1, 2, 3] if quick else "all", "extra": {"group_by_dtype": kt}})
+        for a in itertools.product((0, 1), repeat=2):
+            for b in itertools.product(SYMS, repeat=2):
+                cases.append({"levels": 2, "prefix": [list(a), list(b)], "depth": 1 if quick else 2, "nrows": [1, 2], "extra": {"group_by_dtype": kt}})
     run.layer("key-sequences", "mc.props.c13:eval_case", cases, chunk=1, total=len(cases))
     run.extra["traces_validated_against_impl"] = run.evaluations
     for need in ("rendered", "rejected", "multi_page", "with_null"):
